@@ -422,6 +422,90 @@ func runGrowth(rec *vcommon.Rec, sc *scenario) {
 	}
 }
 
+// runAbortedHandshakes: growth over PHYSICAL connections that never become sessions: a peer connects to the server, says
+// nothing / half a request / the whole announce request, shuts its sending side down and waits. The server's handshake
+// fails with end-of-stream; it must close the connection (the peer sees the end) and keep nothing.
+func runAbortedHandshakes(rec *vcommon.Rec, sc *scenario) {
+	sig := "growth:" + sc.Carrier + ":" + sc.Mode
+	p, err := e2e.Start(e2e.Options{Carrier: sc.Carrier, NoClient: true})
+	if err != nil {
+		rec.Violation(sig+":setup-failed", sc, err.Error())
+		return
+	}
+	defer p.Close()
+	host := p.ServerURL[strings.Index(p.ServerURL, "://")+3:]
+	netw := "tcp"
+	if strings.HasPrefix(sc.Carrier, "unix") {
+		netw = "unix"
+	}
+	said := [][]byte{nil, []byte("X-SOCKETACE / HT"), []byte("X-SOCKETACE / HTTP/1.1\r\nAccepts-Protocol-Version: v2.0.0\r\nUser-Agent: socketace/test\r\n\r\n"),
+		[]byte("X-SOCKETACE / HTTP/1.1\r\nAccepts-Protocol-Ver")}
+	type halfCloser interface{ CloseWrite() error }
+	one := func(i int) *e2e.Failure {
+		c, err := net.Dial(netw, host)
+		if err != nil {
+			return &e2e.Failure{Kind: "dial-failed", Info: map[string]interface{}{"err": err.Error()}}
+		}
+		defer c.Close()
+		if b := said[i%len(said)]; b != nil {
+			c.Write(b)
+		}
+		if hc, ok := c.(halfCloser); ok {
+			hc.CloseWrite()
+		}
+		var rerr error
+		ended := e2e.Go(func() {
+			b := make([]byte, 512)
+			for rerr == nil {
+				_, rerr = c.Read(b)
+			}
+		})
+		switch e2e.Wait(ended) {
+		case e2e.Stalled:
+			return &e2e.Failure{Kind: "peer-that-left-during-the-handshake-never-sees-the-connection-closed", Info: map[string]interface{}{"connection_number": i, "said_bytes": len(said[i%len(said)])}}
+		case e2e.Inconclusive:
+			return &e2e.Failure{Kind: "busy", Inconclusive: true}
+		}
+		e2e.Bump(1)
+		return nil
+	}
+	batch := func(from, to int) *e2e.Failure {
+		for i := from; i < to; i++ {
+			if f := one(i); f != nil {
+				return f
+			}
+		}
+		return nil
+	}
+	if f := batch(0, 8); f != nil {
+		report(rec, sc, sig+":warmup", f)
+		return
+	}
+	if f := batch(8, 8+sc.N1); f != nil {
+		report(rec, sc, sig+":batch1", f)
+		return
+	}
+	p1, q1 := quiesce(nil, 30*time.Second)
+	if f := batch(8+sc.N1, 8+sc.N2); f != nil {
+		report(rec, sc, sig+":batch2", f)
+		return
+	}
+	p2, q2 := quiesce(nil, 30*time.Second)
+	rec.Case(fmt.Sprintf("%v", *sc), true)
+	rec.Stat("aborted_handshakes_finished", int64(8+sc.N2))
+	rec.Seen("scenario", sc.Kind+"/"+sc.Carrier+"/"+sc.Mode)
+	rec.Sample(map[string]interface{}{"scenario": sc, "after_n1": describe(p1), "after_n2": describe(p2), "quiescent": []bool{q1, q2}})
+	const slack = 4
+	for c, n := range p2.G {
+		if d := n - p1.G[c]; d > slack {
+			rec.Violation(fmt.Sprintf("%s:goroutines-grow:%s", sig, c), sc, map[string]interface{}{"after_n1": describe(p1), "after_n2": describe(p2), "n1": sc.N1, "n2": sc.N2})
+		}
+	}
+	if d := p2.FDs - p1.FDs; d > slack {
+		rec.Violation(sig+":descriptors-grow", sc, map[string]interface{}{"after_n1": describe(p1), "after_n2": describe(p2), "n1": sc.N1, "n2": sc.N2})
+	}
+}
+
 // runForwarded: growth over logical connections that the client serves from its listener's forward address (no upstream
 // involved). Each connection moves keyed data both ways; then one side shuts its sending side down, the other sees
 // end-of-stream and closes, and the first side's read must end, too. Sockets, goroutines and copy loops must not grow.
@@ -743,6 +827,9 @@ func scenarios(rec *vcommon.Rec) []*scenario {
 			add(scenario{Kind: "growth", Carrier: c, Mode: m, N1: n1, N2: n2})
 		}
 	}
+	// peers that leave during the handshake
+	add(scenario{Kind: "growth", Carrier: "tcp", Mode: "aborted-handshakes", N1: n1, N2: n2})
+	add(scenario{Kind: "growth", Carrier: "unix", Mode: "aborted-handshakes", N1: n1, N2: n2})
 	// connections served from the listener's forward address (no carrier at all)
 	add(scenario{Kind: "growth", Carrier: "forward-address", Mode: "forwarded-app-first", N1: n1, N2: n2})
 	add(scenario{Kind: "growth", Carrier: "forward-address", Mode: "forwarded-target-first", N1: n1, N2: n2})
@@ -770,7 +857,9 @@ func TestVerifC14(t *testing.T) {
 	defer rec.Close()
 	run := func(sc *scenario) {
 		rec.Mark(sc)
-		if sc.Kind == "growth" && strings.HasPrefix(sc.Mode, "forwarded-") {
+		if sc.Kind == "growth" && sc.Mode == "aborted-handshakes" {
+			runAbortedHandshakes(rec, sc)
+		} else if sc.Kind == "growth" && strings.HasPrefix(sc.Mode, "forwarded-") {
 			runForwarded(rec, sc)
 		} else if sc.Kind == "growth" {
 			runGrowth(rec, sc)
